@@ -3,6 +3,7 @@ import Gaftools.Drv.Gaf
 import Gaftools.Drv.Gfa
 import Gaftools.Drv.Realign
 import Gaftools.Drv.Conv
+import Gaftools.Drv.Order
 /-! The correspondence driver: one JSON object per line in, one per line out. -/
 open Lean Gaftools.Drv
 
@@ -24,6 +25,7 @@ def dispatch (op : String) (j : Json) : Except String Json :=
   | "conv.file" => Conv.opFile j
   | "view.index" => View.opIndex j
   | "view.select" => View.opSelect j
+  | "order.run" => Order.opRun j
   | _ => throw s!"unknown op {op}"
 
 partial def loop (h : IO.FS.Stream) (out : IO.FS.Stream) : IO Unit := do
